@@ -255,6 +255,7 @@ def gen_push(rng, big=False):
     if big:
         sizes += [3 * 65536 + 5, 300000]
     files, dirs, ops = {}, {}, [connect_op(rng)]
+    has_subdir = False
     fid = 0
     # sizes that make the buffered records end within a few bytes of maxdata (off-by-some in the flush decision)
     sizes += [rng.randrange(max(0, maxdata - 160), maxdata + 40) for _ in range(6)] + [rng.randrange(max(0, chunk * 2 - 120), chunk * 2 + 40) for _ in range(4)]
@@ -275,6 +276,10 @@ def gen_push(rng, big=False):
                 fid += 1
                 files[fid] = rand_bytes(rng, rng.choice([0, 1, 10, 5000]))
                 ents.append((("f%d_%d.bin" % (i, j)).encode(), fid))
+            if ents and rng.random() < 0.25:
+                # one entry of the directory is itself a directory: opening it fails on the local side, between the transfers of its neighbours
+                ents.insert(rng.randrange(0, len(ents) + 1), (("sub%d" % i).encode(), 900000 + i))
+                has_subdir = True
             dirs[100 + i] = ents
             op["src"] = ("dir", 100 + i)
         else:
@@ -283,7 +288,7 @@ def gen_push(rng, big=False):
         ops.append(op)
     sim = dict(maxdata=maxdata, burst=rng.random() < 0.3, remote_ids=rand_remote_ids(rng), stray=stray_packets(rng),
                wrte_split=rand_split(rng), default_chunks=[], okay_after_reply=rng.random() < 0.3)
-    return dict(envs=[base_env(rng, sim)], ops=ops, files=files, dirs=dirs, healthy=True)
+    return dict(envs=[base_env(rng, sim)], ops=ops, files=files, dirs=dirs, healthy=not has_subdir)
 
 
 def gen_reconnect_push(rng):
